@@ -96,14 +96,19 @@ def run(ctx, rep) -> None:
     rep.rule("C07.4", "block keys carry the shard rank and every caller passes one")
     for sub, text in (("1", "recovered blocks are views of the shard"), ("2", "recovery guards"), ("4", "recursion of the recovery is well-founded and three-way")):
         rep.rule(f"C07.2.{sub}", text + " (same rule as C15." + sub + ")")
-    recovery_agreement(ctx, rep, "C07.1", [FSDP, HSDP])
-    sibling_pairs(ctx, rep, "C07.2", [(FSDP, HSDP, m) for m in ("_merge_and_block_parameters", "_merge_and_block_gradients", "_split_tensor_block_recovery", "_construct_composable_block_ids")] + [(DIST, FSDP, "update_params"), (DIST, FSDP, "merge_and_block_gradients")])
-    recovery_rules(ctx, rep, "C07.2", [FSDP, HSDP])
-    collective_uniformity(ctx, rep, "C07.3", {"HSDPDistributor"})
-    buffer_protocol(ctx, rep, "C07.3", HSDP)
-    typing_sites(ctx, rep, "C07.3", {"distributed_shampoo.utils.shampoo_hsdp_distributor", "distributed_shampoo.utils.shampoo_fsdp_distributor"}, {"distributed_shampoo.utils.shampoo_hsdp_distributor": 8, "distributed_shampoo.utils.shampoo_fsdp_distributor": 2})
-    _dist_remask(ctx, rep, "C07.3", HSDP)
-    _dist_remask(ctx, rep, "C07.3", FSDP, 2)
-    sibling_pairs(ctx, rep, "C07.3", [p for p in dist_pairs() if HSDP in p[:2]])
-    block_keys(ctx, rep, "C07.4")
+    rep.attempt("recovery_agreement", recovery_agreement, ctx, rep, "C07.1", [FSDP, HSDP])
+    rep.attempt("sibling_pairs", sibling_pairs, ctx, rep, "C07.2", [(FSDP, HSDP, m) for m in ("_merge_and_block_parameters", "_merge_and_block_gradients", "_split_tensor_block_recovery", "_construct_composable_block_ids")] + [(DIST, FSDP, "update_params"), (DIST, FSDP, "merge_and_block_gradients")])
+    rep.attempt("recovery_rules", recovery_rules, ctx, rep, "C07.2", [FSDP, HSDP])
+    rep.attempt("collective_uniformity", collective_uniformity, ctx, rep, "C07.3", {"HSDPDistributor"})
+    rep.attempt("buffer_protocol", buffer_protocol, ctx, rep, "C07.3", HSDP)
+    from .c14 import assignment_determinism, buffer_views, ownership
+
+    rep.attempt("ownership", ownership, ctx, rep, "C07.3", [HSDP])
+    rep.attempt("assignment_determinism", assignment_determinism, ctx, rep, "C07.3", [HSDP])
+    rep.attempt("buffer_views", buffer_views, ctx, rep, "C07.3", [HSDP])
+    rep.attempt("typing_sites", typing_sites, ctx, rep, "C07.3", {"distributed_shampoo.utils.shampoo_hsdp_distributor", "distributed_shampoo.utils.shampoo_fsdp_distributor"}, {"distributed_shampoo.utils.shampoo_hsdp_distributor": 8, "distributed_shampoo.utils.shampoo_fsdp_distributor": 2})
+    rep.attempt("_dist_remask", _dist_remask, ctx, rep, "C07.3", HSDP)
+    rep.attempt("_dist_remask", _dist_remask, ctx, rep, "C07.3", FSDP, 2)
+    rep.attempt("sibling_pairs", sibling_pairs, ctx, rep, "C07.3", [p for p in dist_pairs() if HSDP in p[:2]])
+    rep.attempt("block_keys", block_keys, ctx, rep, "C07.4")
     rep.assume("maximality/validity of recovered blocks (C15), exactly-once element coverage across ranks, numerical equality with the serial optimizer and the index conversion in compile_fsdp_parameter_metadata are NOT decided")
